@@ -79,6 +79,7 @@ package prolog
 //@   ensures[done-records-exhaustion] gf(exhausted, s) == 1 ==> s.done
 //@   ensures[finished-means-false-without-communication] old(s.closed) || old(s.done) ==> !result && ghost(chanops) == 0
 //@   ensures[false-means-finished] !result ==> s.closed || s.done
+//@   ensures[true-means-an-answer-was-received] result ==> gf(exhausted, s) == 0 && !s.done && ghost(chanops) == 2
 //@   ensures[next-never-closes] s.closed == old(s.closed) && ghost("closed:more") == 0
 
 //@ func (*Solutions).Close
@@ -92,6 +93,7 @@ package prolog
 //@   property C12
 //@   requires s != nil
 //@   modifies nothing
+//@   ensures[the-error-the-query-ended-with] result == s.err
 
 //@ global monotone-flag prolog.Solutions.closed C12
 //@ global monotone-flag prolog.Solutions.done C12
